@@ -510,7 +510,8 @@ struct Oracle {
     }
 };
 
-// the C++ dereferences a null saslServer / a disengaged sasl2AuthRequest on these inputs: never executed in-process
+// the C++ dereferences a disengaged sasl2AuthRequest (before repo commit e590a14 also a null saslServer) on these inputs:
+// never executed in-process
 struct UbGuard {
     bool live = false, stuck = false, saslNull = true, v2 = false, s2req = false, digestStep2 = false;
     static bool knownMech(const QString &m) { return m == "PLAIN" || m == "DIGEST-MD5" || m == "ANONYMOUS"; }
@@ -708,7 +709,7 @@ int main(int argc, char **argv)
     const bool thorough = a.tier == "thorough";
     QElapsedTimer timer; timer.start();
 
-    // corpus: witnesses of the recorded findings and the plain good paths, first
+    // corpus: witnesses of the four former findings (fixed by repo commits 73b9a89 and e590a14) first, then the plain good paths
     const std::vector<Script> corpus = {
         { "open example.org", "msg - victim@example.org/v" },
         { "open example.org", "bind r", "msg - victim@example.org/v", "iq get - victim@example.org/v" },
